@@ -99,7 +99,7 @@ def run(ctx):
         tr = tlc_with_cfg(ctx, "Transcript", transcript_cfg(sh), "Transcript_" + inst)
         hf = os.path.join(tr["dir"], "challenger_histories.json")
         rq = dict(files)
-        rq.update({"part": "transcript", "histories": hf, "instance": inst, "k": k, "variants": ["real", "random", "real+pow0", "random+pow0", "random+pow1", "random+pow20"],
+        rq.update({"part": "transcript", "histories": hf, "instance": inst, "k": k, "variants": ["real", "random", "real+pow0", "random+pow0", "random+pow1", "random+pow20", "random+npi0", "random+npi1", "random+npi9"],
                    "nperturb": 60 if thorough else 12, "shard": len(jobs)})
         jobs.append(("c11", rq, "t-" + inst))
         # the same with a final polynomial of 1..3 coefficients: the sponge's input block is then partly filled when the proof-of-work
